@@ -66,7 +66,8 @@ Q3 = {"small": QS_SMALL, "p": QS_P, "full": QS}
 # that counts as "malformed q -> item ignored" is not clear from the statement, so such forms are not generated.
 # ("-0" / "-0.0" are not generated either: numerically in range, spelled negative - the statement does not decide)
 QS_ODD = ["0.5x", "1e0", "inf", "+1", "1.5e0", "1_0", "0x1", "-0.5", "-1.0", "-0.001", "1.0001", "1.001", "2", "10", "1.50",
-          "00.5", "0.9999", "01", "001.000", "0.0000", "1.0"]   # the first 15 malformed / out of range, the rest valid
+          '""', '" "', '"x"', '"1.5"',
+          "00.5", "0.9999", "01", "001.000", "0.0000", "1.0", '"0.5"', '"0"']   # the first 19 malformed / out of range, the rest valid
 
 _QRE = re.compile(r"[0-9]+(\.[0-9]+)?\Z")
 
@@ -75,7 +76,7 @@ def qval(q):
     """Reference: absent -> 1; decimal number in [0, 1] -> its value; anything else -> item ignored (None)."""
     if q is None:
         return 1.0
-    q = q.strip()
+    q = _unq(q).strip()          # a quoted q value counts by its content ("0.5" is 0.5; "" and " " are malformed)
     if not _QRE.match(q):
         return None
     v = float(q)
